@@ -261,7 +261,9 @@ func (c *Ctx) Rapid(name string, checks int, prop func(rt *rapid.T, s *Sub)) {
 		rapid.Check(t, func(rt *rapid.T) {
 			s := &Sub{C: c, Name: name, T: t, rt: rt}
 			prop(rt, s)
-			passed++
+			if passed < int64(checks) {
+				passed++
+			}
 		})
 	})
 }
